@@ -26,6 +26,8 @@ import (
 	"bytes"
 	"fmt"
 	"io"
+	"os"
+	"path/filepath"
 	"sort"
 	"strings"
 
@@ -572,16 +574,52 @@ func loadSaveText(c *run.Ctx, text string, d *textDesc) run.Result {
 	c.SaveInput([]byte(text))
 	c.Note("obj.ReadMesh of generated text")
 	var loaded []obj.ObjMesh
-	rd := source(c, &res, []byte(text))
-	input += ", reader " + rd.Kind
-	p := run.Try(func() { loaded, _, err = obj.ReadMesh(rd.R) })
-	rd.Close()
+	var p *run.PanicInfo
+	loadSite := "obj.ReadMesh"
+	// Round 10 (C05-O): a fifth of the texts are loaded the way users load files - obj.Load(path), next to a
+	// material library that defines all, some or none of the names the text uses (a text without an mtllib
+	// statement has no library). What Load makes of the materials is not judged here; the faces are.
+	viaFile := run.Mix(c.Seed, uint64(c.Case), 0xF11E)%5 == 0
+	if viaFile {
+		dir, cleanup, derr := scratchDir(c)
+		if derr != nil {
+			res.Inconclusive = "no scratch directory: " + derr.Error()
+			return res
+		}
+		defer cleanup()
+		path := filepath.Join(dir, "scene.obj")
+		lib, defined, used := libraryFor(text, run.Mix(c.Seed, uint64(c.Case), 0x317B))
+		if werr := os.WriteFile(path, []byte(text), 0o644); werr != nil {
+			res.Inconclusive = "cannot write the scratch file: " + werr.Error()
+			return res
+		}
+		if strings.Contains(text, "mtllib scene.mtl") {
+			if werr := os.WriteFile(filepath.Join(dir, "scene.mtl"), []byte(lib), 0o644); werr != nil {
+				res.Inconclusive = "cannot write the scratch library: " + werr.Error()
+				return res
+			}
+			res.Count("texts_loaded_by_path_with_a_library", 1)
+			res.SetAdd("library_coverage", fmt.Sprintf("%s of the used names defined", map[bool]string{true: "all", false: "some or none"}[defined == used]))
+			wit["library"] = clip(lib, 600)
+			input += fmt.Sprintf(", library defining %d of the %d material names used", defined, used)
+		}
+		res.Count("texts_loaded_by_path", 1)
+		loadSite = "obj.Load"
+		input += ", loaded by path"
+		c.Note("obj.Load " + path)
+		p = run.Try(func() { loaded, err = obj.Load(path) })
+	} else {
+		rd := source(c, &res, []byte(text))
+		input += ", reader " + rd.Kind
+		p = run.Try(func() { loaded, _, err = obj.ReadMesh(rd.R) })
+		rd.Close()
+	}
 	if p != nil {
-		res.Violate(panicClass(p), "obj.ReadMesh", input, p.Value+"\n"+p.Stack, wit)
+		res.Violate(panicClass(p), loadSite, input, p.Value+"\n"+p.Stack, wit)
 		return res
 	}
 	if err != nil {
-		res.Violate("read-error", "obj.ReadMesh", input, "valid text rejected: "+err.Error(), wit)
+		res.Violate("read-error", loadSite, input, "valid text rejected: "+err.Error(), wit)
 		return res
 	}
 	loadedTris := 0
@@ -589,7 +627,9 @@ func loadSaveText(c *run.Ctx, text string, d *textDesc) run.Result {
 	viewsOK := true
 	for _, om := range loaded {
 		loadedTris += om.Mesh.PrimitiveCount()
-		v, verr := viewOf(om.Name, om.Mesh, true)
+		// a nil material pointer returned by ReadMesh is a missing material; returned by Load it is a name no
+		// library defines, which the writer spells as its default material
+		v, verr := viewOf(om.Name, om.Mesh, !viaFile)
 		if verr != nil {
 			viewsOK = false
 			res.Count("loaded_meshes_ill_formed", 1)
@@ -755,4 +795,29 @@ func describeLoaded(loaded []obj.ObjMesh) string {
 		parts = append(parts, fmt.Sprintf("%q:%dtris%v", om.Name, om.Mesh.PrimitiveCount(), rangesOf(om.Mesh)))
 	}
 	return strings.Join(parts, " ")
+}
+
+// libraryFor writes a material library for the names the text selects with usemtl: all of them, a subset or none
+// (salt-determined). Returns the library text, the number of names defined and used.
+func libraryFor(text string, salt uint64) (lib string, defined, used int) {
+	seen := map[string]bool{}
+	var names []string
+	for _, ln := range strings.Split(text, "\n") {
+		f := strings.Fields(ln)
+		if len(f) >= 2 && f[0] == "usemtl" && !seen[f[1]] {
+			seen[f[1]] = true
+			names = append(names, f[1])
+		}
+	}
+	mode := salt % 3 // 0 all, 1 subset, 2 none
+	var sb strings.Builder
+	sb.WriteString("# library\n")
+	for i, n := range names {
+		if mode == 2 || (mode == 1 && (salt>>uint(8+i%40))&1 == 0) {
+			continue
+		}
+		defined++
+		fmt.Fprintf(&sb, "newmtl %s\nKd 0.5 0.25 %d\n", n, i%2)
+	}
+	return sb.String(), defined, len(names)
 }
